@@ -2,6 +2,7 @@ package main
 
 import (
 	"fmt"
+	"go/constant"
 	"go/token"
 
 	"golang.org/x/tools/go/ssa"
@@ -42,7 +43,9 @@ func r171(c *Ctx, r *R) {
 				// ... or after the membership change went through
 				done := false
 				for _, ci := range av {
-					if ci.Block().Dominates(lf.Block) && lf.GuardedBy(func(g Guard) bool { return gCallErrNil(g, "hashicorp/raft.Future).Error", "hashicorp/raft.IndexFuture).Error") }) {
+					if ci.Block().Dominates(lf.Block) && lf.GuardedBy(func(g Guard) bool {
+						return gCallErrNil(g, "hashicorp/raft.Future).Error", "hashicorp/raft.IndexFuture).Error")
+					}) {
 						done = true
 					}
 				}
@@ -97,6 +100,79 @@ func r171(c *Ctx, r *R) {
 				}
 				r.Check(noop || done, "rm:nil-means-absent-or-removed", lf.Pos, "nil only when the peer was absent or has been removed", "RemovePeer returns nil without the peer being absent or removed")
 			}
+		}
+	}
+	// the result of the membership change is what the wrapper returns: after
+	// AddVoter / RemoveServer was issued, every return hands back that
+	// future's error, or nil where it was tested to be nil
+	changeResult := func(name string, f *ssa.Function, changes []ssa.CallInstruction) {
+		if f == nil || len(changes) != 1 {
+			return
+		}
+		isFutErr := func(v ssa.Value) bool {
+			cc, _ := originCall(v)
+			if cc == nil || !nameMatches(callName(cc.Common()), "hashicorp/raft.Future).Error", "hashicorp/raft.IndexFuture).Error") {
+				return false
+			}
+			fc, _ := originCall(recvOf(cc.Common()))
+			return fc != nil && ssa.Instruction(fc) == ssa.Instruction(changes[0].(*ssa.Call))
+		}
+		ok, n := true, 0
+		for _, lf := range returnLeaves(f, 0) {
+			if !(changes[0].Block() == lf.Block || changes[0].Block().Dominates(lf.Block)) {
+				continue
+			}
+			n++
+			switch {
+			case isNilConst(lf.Val):
+				if !lf.GuardedBy(func(g Guard) bool { return gNil(g, false, isFutErr) }) {
+					ok = false
+				}
+			case isFutErr(lf.Val):
+			default:
+				leafOK := false
+				for _, l := range phiLeaves(lf.Val) {
+					if isFutErr(l) {
+						leafOK = true
+					}
+				}
+				if !leafOK {
+					ok = false
+				}
+			}
+		}
+		r.Check(ok && n > 0, name+":returns-change-error", changes[0].Pos(), "the wrapper returns the outcome of the membership change", name+": after the membership change was issued the wrapper returns something other than that change's error (a shadowed or stale variable): a failed AddVoter/RemoveServer is acknowledged as success and the caller believes the peerset changed")
+	}
+	if add != nil {
+		changeResult("add", add, findCalls(add, false, "hashicorp/raft.Raft).AddVoter"))
+	}
+	if rm != nil {
+		changeResult("rm", rm, findCalls(rm, false, "hashicorp/raft.Raft).RemoveServer"))
+	}
+	// isVoter: this server's own entry, with voter suffrage
+	if iv := c.P.Func("consensus/raft", "isVoter"); iv != nil {
+		voter := c.constIn("github.com/hashicorp/raft", "Voter")
+		for _, lf := range returnLeaves(iv, 0) {
+			k, isK := constOf(lf.Val)
+			if !isK || k == nil || !constant.BoolVal(k) {
+				continue
+			}
+			own := lf.GuardedBy(func(g Guard) bool {
+				b, ok := g.Cond.(*ssa.BinOp)
+				if !ok || !((b.Op == token.EQL) == g.Branch) || (b.Op != token.EQL && b.Op != token.NEQ) {
+					return false
+				}
+				return paramIndex(iv, b.X) == 0 || paramIndex(iv, b.Y) == 0
+			})
+			suff := lf.GuardedBy(func(g Guard) bool {
+				x, kk, tme, ok := eqConst(g.Cond)
+				if !ok || tme != g.Branch {
+					return false
+				}
+				fl, _ := fieldLoad(x)
+				return fl != nil && fl.Name() == "Suffrage" && (voter == nil || constant.Compare(kk, token.EQL, voter))
+			})
+			r.Check(own && suff, "isVoter:own-entry-and-voter", lf.Pos, "a server is a voter when its own entry has voter suffrage", fmt.Sprintf("isVoter answers true without requiring both `this server's entry` (%v) and `suffrage == Voter` (%v): a joining peer is declared synced (WaitForVoter) while it is still a non-voter, before it holds the log", own, suff))
 		}
 	}
 	// only membership calls
